@@ -124,6 +124,7 @@ def judge(ses, replay_oracle=True):
     snaps = {}                    # id(object) -> (tree before its do, tree after, irreversible?)
     tainted = False
     dropped_paths = []            # paths of the changes forgotten by drop=True while the redo list was non-empty
+    stale_redone = False          # a redo entry that depended on a forgotten change has been redone
 
     def bad(idx, kind, text, cls=None):
         verdicts.append(Verdict(idx, kind, text, cls or ("unexplained:" + kind)))
@@ -176,8 +177,10 @@ def judge(ses, replay_oracle=True):
         i = st.sel if st.sel is not None else len(src_objs) - 1
         closure = L.path_closure(src_specs, i)
         coherent = L.classes_coherent(src_specs)
-        stale = (st.kind == "redo" and any(L.nested_paths(p, q) for j in closure for p in L.spec_paths(src_specs[j])
-                                           for q in dropped_paths))
+        stale = stale_redone or (st.kind == "redo" and any(L.nested_paths(p, q) for j in closure
+                                                           for p in L.spec_paths(src_specs[j]) for q in dropped_paths))
+        if stale and not st.raised:
+            stale_redone = True
         if st.raised:
             cls = None
             if stale:
